@@ -122,19 +122,19 @@ PYVC_CANARIES = [
     ('load_model_qsvs: no copy', CAL, 'Calibrator.load_model_qsvs', c09_qsvs.LoadModelQsvs, pyvc.Engine, 'self._model_qsvs = copy.deepcopy(model_qsvs)', 'self._model_qsvs = model_qsvs', None),
     ('load_model_qsvs: shallow copy', CAL, 'Calibrator.load_model_qsvs', c09_qsvs.LoadModelQsvs, pyvc.Engine, 'self._model_qsvs = copy.deepcopy(model_qsvs)', 'self._model_qsvs = dict(model_qsvs)', None),
     ('calibrate: per-sample ignore set not passed to _update_qsvs', CAL, 'Calibrator.calibrate', c09_calibrate.Calibrate, c09_calibrate.EngineX, '              op_qsvs, updated_tensor_names, qsv_update_func\n', '              op_qsvs, set(), qsv_update_func\n',
-     ('callsite:_update_qsvs.ignore-set', 'loop2-preserve:model[name]')),
+     ('callsite:_update_qsvs.ignore-set',)),
     ('calibrate: ignore set created once for the whole dataset', CAL, 'Calibrator.calibrate', c09_calibrate.Calibrate, c09_calibrate.EngineX,
      '    for data in calibration_dataset:\n      # Initialize tensor names that are updated in this round of calibration.\n      updated_tensor_names = set()\n', '    updated_tensor_names = set()\n    for data in calibration_dataset:\n', ('loop1-entry:per-sample-updated-set',)),
-    ('calibrate: returned names not added to the per-sample set (a tensor of two ops folded twice per sample)', CAL, 'Calibrator.calibrate', c09_calibrate.Calibrate, c09_calibrate.EngineX, '          updated_tensor_names.update(op_updated_tensor_name)\n', '          pass\n', ('loop2-preserve:name is in the per-sample updated set',)),
+    ('calibrate: returned names not added to the per-sample set (a tensor of two ops folded twice per sample)', CAL, 'Calibrator.calibrate', c09_calibrate.Calibrate, c09_calibrate.EngineX, '          updated_tensor_names.update(op_updated_tensor_name)\n', '          pass\n', ('loop2-preserve:updated-set[name]',)),
     ('calibrate: interpreter not reset after a sample', CAL, 'Calibrator.calibrate', c09_calibrate.Calibrate, c09_calibrate.EngineX, '      self._tfl_interpreter.reset_all_variables()\n', '      pass\n', ('loop0-preserve:interpreter-reset',)),
     ('calibrate: content map of subgraph 0 instead of the invoked subgraph (the repaired defect)', CAL, 'Calibrator.calibrate', c09_calibrate.Calibrate, c09_calibrate.EngineX, '              self._tfl_interpreter, subgraph_index\n          )\n      )', '              self._tfl_interpreter, 0\n          )\n      )',
      ('callsite:content-map', 'callsite:calibrate_func')),
     ('calibrate: every round invokes the FIRST sample of the dataset', CAL, 'Calibrator.calibrate', c09_calibrate.Calibrate, c09_calibrate.EngineX, '          self._tfl_interpreter, data, signature_key\n', '          self._tfl_interpreter, calibration_dataset[0], signature_key\n',
      ('callsite:invoke', 'callsite:content-map')),
-    ('_initialize_model_qsvs: last writer wins (presence test dropped)', CAL, 'Calibrator._initialize_model_qsvs', c09_init.InitQsvs, pyvc.Engine, '          if tensor_name not in self._model_qsvs:\n            self._model_qsvs[tensor_name] = qsv', '          if True:\n            self._model_qsvs[tensor_name] = qsv', None),
-    ('_initialize_model_qsvs: init function gets operator index 0 for every operator', CAL, 'Calibrator._initialize_model_qsvs', c09_init.InitQsvs, pyvc.Engine, 'qtyping.OpInfo(op, op_key, subgraph_op_id, op_quant_config)', 'qtyping.OpInfo(op, op_key, 0, op_quant_config)', None),
+    ('_initialize_model_qsvs: last writer wins (presence test dropped)', CAL, 'Calibrator._initialize_model_qsvs', c09_init.InitQsvs, pyvc.Engine, '          if tensor_name not in self._model_qsvs:\n            self._model_qsvs[tensor_name] = qsv', '          if True:\n            self._model_qsvs[tensor_name] = qsv', ('loop2-preserve:model[name]',)),
+    ('_initialize_model_qsvs: init function gets operator index 0 for every operator', CAL, 'Calibrator._initialize_model_qsvs', c09_init.InitQsvs, pyvc.Engine, 'qtyping.OpInfo(op, op_key, subgraph_op_id, op_quant_config)', 'qtyping.OpInfo(op, op_key, 0, op_quant_config)', ('loop1-preserve:model[name]',)),
     ('_initialize_model_qsvs: graph info of the FIRST subgraph for every subgraph', CAL, 'Calibrator._initialize_model_qsvs', c09_init.InitQsvs, pyvc.Engine, '    for subgraph in self._flatbuffer_model.subgraphs:\n      graph_info = qtyping.GraphInfo(\n          subgraph.tensors, self._flatbuffer_model.buffers\n      )\n      for subgraph_op_id',
-     '    for subgraph in self._flatbuffer_model.subgraphs:\n      graph_info = qtyping.GraphInfo(\n          self._flatbuffer_model.subgraphs[0].tensors, self._flatbuffer_model.buffers\n      )\n      for subgraph_op_id', None),
+     '    for subgraph in self._flatbuffer_model.subgraphs:\n      graph_info = qtyping.GraphInfo(\n          self._flatbuffer_model.subgraphs[0].tensors, self._flatbuffer_model.buffers\n      )\n      for subgraph_op_id', ('loop1-entry:graph-info',)),
     ('get_subgraph_input_output_operators: INPUT pseudo-operator lists the graph OUTPUTS', FBU, 'get_subgraph_input_output_operators', c09_calibrate.IoOps, pyvc.Engine, '      outputs=subgraph.inputs,', '      outputs=subgraph.outputs,', None),
 ]
 SYM_CANARIES = [
@@ -142,7 +142,7 @@ SYM_CANARIES = [
     ('_update_moving_average: (1 - a) -> (1 + a)', CU, '(1.0 - smoothing_factor) * update', '(1.0 + smoothing_factor) * update', 'moving-average', ['any-factor: result == s*w + (1-s)*update']),
     ('moving_average_update: max folded with the new MIN', CU, 'smoothing_factor, qsv["max"], new_qsv["max"]', 'smoothing_factor, qsv["max"], new_qsv["min"]', 'moving-average', ['shape1x1.nonempty-old: max == 0.95*old.max + (1-0.95)*new.max']),
     ('moving_average_update: old dict updated in place and returned', CU, '  updated_qsv = {}\n  updated_qsv["min"] = _update_moving_average(', '  updated_qsv = qsv\n  updated_qsv["min"] = _update_moving_average(', 'moving-average',
-     ['shape1x1.nonempty-old: fresh dict with keys exactly min,max; arguments not written; shape and dtype kept']),
+     ['shape1x1.nonempty-old: fresh {min,max} dict; arguments not written; shape/dtype kept']),
     ('min_max_calibrate: "max" recorded with np.min', cc.NMM, '"max": np.max(tensor_content, axis=None, keepdims=True),', '"max": np.min(tensor_content, axis=None, keepdims=True),', 'calibrate-func', ['ADD.values-are-min/max-of-the-content-map-entry-over-all-axes']),
     ('min_max_calibrate: reduction over axis 0 only', cc.NMM, '"min": np.min(tensor_content, axis=None, keepdims=True),', '"min": np.min(tensor_content, axis=0, keepdims=True),', 'calibrate-func', ['CONV_2D.values-are-min/max-of-the-content-map-entry-over-all-axes']),
     ('min_max_calibrate: outputs_to_ignore not honoured', cc.NMM, '    if tensor_idx != -1 and i not in outputs_to_ignore:\n      _collect_activation_tensor_min_max(tensor_idx)', '    if tensor_idx != -1:\n      _collect_activation_tensor_min_max(tensor_idx)', 'calibrate-func',
@@ -219,6 +219,12 @@ def run(rep):
     # (4) bounded stand-in through the public API
     fails = standin(rep)
     if not fails and any(o.status == core.REFUTED for o in rep.obs): rep.notes.append('an obligation is refuted although the bounded stand-in found no failing input on the fixtures')
+    if fails:
+        # counter-models of the contracts are abstract (uninterpreted callees): the natively failing public-API scenario found by the bounded search is attached as the replayed input
+        nat_rp = dict(confirmed=True, inputs={k: v for k, v in fails[0].items() if k in ('model', 'seed', 'n', 'sessions', 'tensor', 'signature')}, observed=fails[0],
+                      note='failing input found by the bounded native search through Quantizer.calibrate (first failing scenario); the solver counter-model of this obligation is abstract')
+        for o in rep.obs:
+            if o.status == core.REFUTED and not (isinstance(o.replay, dict) and o.replay.get('confirmed')): o.replay = dict(nat_rp, abstract_counter_model=(o.replay or {}).get('inputs') if isinstance(o.replay, dict) else None)
     # (5) canaries, covers
     run_canaries(rep, M, cu, base)
     for k, n in rep.extra['obligations_per_family'].items(): rep.cover(f'family.{k}.non-empty', n > 0)
@@ -229,6 +235,8 @@ def run(rep):
     rep.trust('numpy elementwise arithmetic = pointwise lifting on the promoted dtype; np.min / np.max(axis=None, keepdims=True) return the minimum / maximum of the whole array (value content compared natively in the bounded stand-in only)')
     rep.trust('copy.deepcopy(x): fresh object graph, structurally equal to x, sharing no mutable object with x (library semantics; stated as the callee contract of load_model_qsvs)')
     rep.trust('python dict / set / list = the engine models (insertion-ordered map, membership set, array + length); a calibration dataset is modelled as a list (any Iterable is consumed in iteration order)')
+    rep.trust('allocation: an object created inside the calibrate loop differs from every object reachable from the operator list (the engine only knows that it differs from the objects allocated at function entry); '
+              'stated as a fact of the callee contract of get_subgraph_input_output_operators')
     rep.trust('C04 (cited, not redone): init_tensor_min_max on symbolic constant content = np.min / np.max over every axis but the quantized dimension (families statistics / qdim), _get_reduce_dims = complement of the quantized dimension')
     rep.trust('C10 / C11 (cited): _get_op_scope = join of the output names (a function of op.outputs and the tensors); RecipeManager.get_quantization_configs is a pure function of its view')
     rep.trust('C14 (cited): Calibrator.calibrate writes nothing reachable from the dataset or the recipe manager (frame analysis); here: every heap store of calibrate / _update_qsvs / load_model_qsvs is checked against the frame of its contract')
